@@ -30,6 +30,10 @@ def generate(rng, tier):
         for t in ts:
             out.append((f"traj {mode} {hx(blk)} p{t}", len(durs) > 0))
         out.append((f"traj {mode} {hx(blk)} D E d S s e", len(durs) > 0))
+        # the player-level duration is the sum of ALL segments wherever the player is parked
+        if durs:
+            t1, t2 = rng.choice(ts), rng.choice(ts)
+            out.append((f"traj {mode} {hx(blk)} p{t1} d v{t2} d a{t1} d D", True))
     # all degree combinations on a two-segment trajectory
     for dx in range(4):
         for dy in range(4):
